@@ -9,7 +9,7 @@ from ..report import Rule, RuleCtx
 from .. import tables
 from ..tables import Atom
 from . import cmpcore
-from .c19_norm import normalise, normal_form
+from .c19_norm import normalise, normal_form, record_as_tuple, record_fields
 from .c19_site import r5, r6, r7
 
 UNIVERSAL = 'mesonbuild/utils/universal.py'
@@ -103,12 +103,17 @@ def _sample_heads() -> T.List[str]:
     return [''] + alpha + [a + b for a in alpha for b in alpha]
 
 
+_MODULE_TREE: T.List[T.Any] = [None]
+
+
 def _cmpop_result(ret: T.Tuple[T.Any, ...], where: str) -> T.Optional[T.Tuple[str, int]]:
     """Shape of one result of _version_extract_cmpop: `(operator.X, ARG1[n:]...[m:].strip())` -> (X, n+m).
     None: the row does not return a pair at all.  Shapes that cannot be read are Undecided."""
     if ret[0] != 'return':
         return None
     e = ast.parse(ret[1], mode='eval').body
+    if _MODULE_TREE[0] is not None:
+        e = record_as_tuple(_MODULE_TREE[0], e)          # a NamedTuple result is the tuple of its fields
     if not (isinstance(e, ast.Tuple) and len(e.elts) == 2):
         if isinstance(e, (ast.Name, ast.Call, ast.Subscript, ast.Attribute, ast.IfExp)):
             raise Undecided(f'_version_extract_cmpop: {where}: cannot read the result {ret[1]}')
@@ -169,6 +174,7 @@ def r3(ctx: RuleCtx) -> None:
     fn = mod.func('_version_extract_cmpop')
     # locals resolved by their reaching definition: the if/elif chain with `cmpop = ..; vstr2 = vstr2[n:]` and a
     # single trailing return gives the same rows as early returns of `(operator.X, vstr2[n:].strip())`
+    _MODULE_TREE[0] = mod.tree
     tab = tables.extract(_nf(mod, fn), inline=False, name='_version_extract_cmpop')
     pre_atoms: T.Dict[Atom, str] = {}
     subjects: T.Set[str] = set()
@@ -240,6 +246,22 @@ def _single_def(fn: ast.AST, name: str) -> T.Optional[ast.AST]:
     return next(iter(vals.values())) if len(vals) == 1 else None
 
 
+def _extractor_fields(mod: T.Any) -> T.Optional[T.List[str]]:
+    """Field names of the NamedTuple that _version_extract_cmpop returns (None: it returns a plain tuple)."""
+    fn = _nf(mod, mod.func('_version_extract_cmpop'))
+    names: T.Set[T.Tuple[str, ...]] = set()
+    for r in walk_no_nested(fn, include_root=False):
+        if isinstance(r, ast.Return) and isinstance(r.value, ast.Call) and isinstance(r.value.func, ast.Name):
+            f = record_fields(mod.tree, r.value.func.id)
+            if f is not None and len(f) == 2 and isinstance(record_as_tuple(mod.tree, r.value), ast.Tuple):
+                names.add(tuple(f))
+            else:
+                return None
+        elif isinstance(r, ast.Return):
+            return None
+    return list(next(iter(names))) if len(names) == 1 else None
+
+
 def _r3_version_compare(ctx: RuleCtx, mod: T.Any) -> None:
     """version_compare applies the extracted operator to (Version(lhs), Version(rest)) in that order.  The pieces are
     found by role: the pair unpacked from `_version_extract_cmpop(<2nd parameter>)`, whatever the locals are called."""
@@ -251,6 +273,7 @@ def _r3_version_compare(ctx: RuleCtx, mod: T.Any) -> None:
     vcn = _nf(mod, vc, calls={'Version'})
     ops: T.Set[str] = set()
     rests: T.Set[str] = set()
+    alias: T.Dict[str, str] = {}
     for st in walk_no_nested(vcn, include_root=False):
         if isinstance(st, ast.Assign) and isinstance(st.value, ast.Call) and norm(st.value.func) == '_version_extract_cmpop' and len(st.targets) == 1:
             if [norm(x) for x in st.value.args] != [rhs] or st.value.keywords:
@@ -262,6 +285,10 @@ def _r3_version_compare(ctx: RuleCtx, mod: T.Any) -> None:
             elif isinstance(t, ast.Name):
                 ops.add(f'{t.id}[0]')
                 rests.add(f'{t.id}[1]')
+                names = _extractor_fields(mod)
+                if names is not None:
+                    alias[f'{t.id}.{names[0]}'] = f'{t.id}[0]'
+                    alias[f'{t.id}.{names[1]}'] = f'{t.id}[1]'
             else:
                 raise Undecided(f'version_compare: cannot read {short(st)}')
     if len(ops) != 1:
@@ -275,12 +302,12 @@ def _r3_version_compare(ctx: RuleCtx, mod: T.Any) -> None:
             v = _single_def(vcn, v.id)
         if isinstance(v, ast.Call) and norm(v.func) == 'bool' and len(v.args) == 1:
             v = v.args[0]
-        if not (isinstance(v, ast.Call) and norm(v.func) == op and len(v.args) == 2 and not v.keywords):
+        if not (isinstance(v, ast.Call) and alias.get(norm(v.func), norm(v.func)) == op and len(v.args) == 2 and not v.keywords):
             raise Undecided(f'version_compare: cannot read the result {short(ret)}')
         inner: T.List[T.Optional[str]] = []
         for a in v.args:
             if isinstance(a, ast.Call) and norm(a.func) == 'Version' and len(a.args) == 1 and not a.keywords:
-                inner.append(norm(a.args[0]))
+                inner.append(alias.get(norm(a.args[0]), norm(a.args[0])))
             elif norm(a) in (lhs, rest):
                 inner.append(None)           # a bare string where a Version is needed
             else:
@@ -708,6 +735,9 @@ def r4_intersect(ctx: RuleCtx) -> None:
             if r.effects:
                 raise Undecided(f'Range.intersect: row {r!r} has effects before returning a copy of the other range')
             return ('copy-x',)
+        if ret in ('copy.copy(self)', 'copy(self)') and not r.effects:
+            # an unchanged copy of self returned directly (no working copy bound on this path)
+            return (True, {side: ('keep', w[flags[side][1]]) for side in ('min', 'max')}, False)
         if ret != res:
             raise Undecided(f'Range.intersect: cannot read the result {ret} of row {r!r}')
         copied = normalised = False
@@ -916,7 +946,7 @@ def names_in_text(text: str) -> T.Set[str]:
         return set()
 
 
-def _resolve_effects(effs: T.List[str]) -> T.Dict[str, ast.AST]:
+def _resolve_effects(effs: T.List[str], keep: T.Iterable[str] = ()) -> T.Dict[str, ast.AST]:
     """Last value stored to each plain local on one row, with earlier locals of the same row substituted
     (reaching definitions along one path)."""
     from ..tables import _Subst
@@ -933,6 +963,8 @@ def _resolve_effects(effs: T.List[str]) -> T.Dict[str, ast.AST]:
             if touched:
                 raise Undecided(f'version_check_to_range: `{e}` stores into {sorted(touched)} after it was built')
             continue
+        if t in keep:
+            continue          # the holder of the (operator, version) pair stays a name: the rows speak about `holder.field`
         env[t] = _Subst(dict(env)).visit(ast.parse(v, mode='eval').body)
     return env
 
@@ -951,6 +983,9 @@ def r4_check_to_range(ctx: RuleCtx) -> None:
             t = st.targets[0]
             if isinstance(t, ast.Tuple) and len(t.elts) == 2:
                 opvar, vvar = norm(t.elts[0]), norm(t.elts[1])
+            elif isinstance(t, ast.Name):
+                names = _extractor_fields(mod)
+                opvar, vvar = (f'{t.id}.{names[0]}', f'{t.id}.{names[1]}') if names is not None else (f'{t.id}[0]', f'{t.id}[1]')
     if opvar is None or vvar is None:
         raise Undecided('version_check_to_range: operator extraction call not found')
     params = [a.arg for a in fn.args.args]
@@ -1018,7 +1053,7 @@ def r4_check_to_range(ctx: RuleCtx) -> None:
             continue       # infeasible row, or no operator matched: nothing is built
         node = r.path.events[-1].node if r.path.events else fn
         effs = _effs(r)
-        env = _resolve_effects(effs)
+        env = _resolve_effects(effs, keep={opvar.split('.')[0].split('[')[0]})
         final = env.get(acc)
         narrowed = isinstance(final, ast.Call) and isinstance(final.func, ast.Attribute) and final.func.attr == 'intersect' \
             and norm(final.func.value) == acc and len(final.args) == 1
